@@ -482,16 +482,37 @@ Section Decl.
     | _ => false
     end.
 
-  (* a default given with `=` is validated whenever the field has no truthy _default yet
-     (c(default=d) for classes, _try_default_value / _apply_default_... otherwise) *)
-  Definition eq_default (f : field) (kw eq : option pyval) : res (option pyval) :=
+  (* WHERE a default given with `=` is processed depends on what the annotation evaluated to:
+       PathClass       a Field CLASS (`a: Integer = d`, `a: int = d` via the table): the class is instantiated with
+                       default=d (_instantiate_fields_if_needed / _type_with_default_value_if_exists), i.e. Field.__init__;
+       PathTypingInst  a typing generic / Union converted to a Field INSTANCE: _type_with_default_value_if_exists calls
+                       _try_default_value(d) right away;
+       PathInst        a Field instance / Structure class written as such: nothing yet.
+     Then _apply_default_and_update_required_... (all three): if the field has no truthy _default so far, a list / dict /
+     set default is refused ("mutable value as default"), any other is validated and stored. *)
+  Inductive decl_path := PathClass | PathTypingInst | PathInst.
+  Definition decl_path_of (o : pyobj) : decl_path :=
+    match o with
+    | OFieldCls _ => PathClass
+    | OFieldInst _ | OStruct _ => PathInst
+    | _ => match tli o with Ok (Some (FVCls _)) => PathClass | _ => PathTypingInst end
+    end.
+
+  Definition apply_default (f : field) (cur : option pyval) (d : pyval) : res (option pyval) :=
+    let body := if is_mutable_default d then Raise ValueError else _ <- try_default f d ;; Ok (Some d) in
+    match cur with
+    | Some k => if py_truthy k then Ok cur else body
+    | None => body
+    end.
+
+  Definition eq_default (path : decl_path) (f : field) (kw eq : option pyval) : res (option pyval) :=
     match eq with
     | None => Ok kw
     | Some d =>
-        match kw with
-        | Some k => if py_truthy k then Ok kw
-                    else if is_mutable_default d then Raise ValueError else _ <- try_default f d ;; Ok (Some d)
-        | None => if is_mutable_default d then Raise ValueError else _ <- try_default f d ;; Ok (Some d)
+        match path with
+        | PathInst => apply_default f kw d
+        | PathClass => _ <- (if init_validates d then try_default f d else Ok tt) ;; apply_default f (Some d) d
+        | PathTypingInst => _ <- try_default f d ;; apply_default f None d
         end
     end.
 
@@ -506,7 +527,7 @@ Section Decl.
                   | OFieldInst _ => match d_kw d with Some PNone => None | x => x end
                   | _ => None
                   end in
-        dv <- eq_default f kw (if d_annot d then d_eq d else None) ;;
+        dv <- eq_default (decl_path_of o) f kw (if d_annot d then d_eq d else None) ;;
         Ok (Some {| fr_name := d_name d; fr_field := f; fr_default := dv;
                     fr_optional := d_opt d || (d_annot d && marks_optional (d_ty d)) |})
     end.
